@@ -140,6 +140,54 @@ def boundary_grid(run):
     return out
 
 
+AGG_KINDS = ["idxpair", "idxlen", "idxsum", "third", "len", "sum", "first", "id"]
+AGG_SIZES = [(3, 1), (2, 1), (1, 2), (1, 3), (2, 3, 1), (3, 2, 1), (2, 2, 1), (1, 1), (2, 2), (3, 3), (2, 1, 2), (1, 2, 3), (2, 3), (3, 2),
+             (2, 2, 3, 1), (1,), (2,), (3,)]
+AGG_VALUES = ["int", "str", "pair", "list"]
+
+
+def agg_value(rng, kind, j):
+    if kind == "int":
+        return rng.randrange(0, 6) if rng else j
+    if kind == "str":
+        return rng.choice(sc.STRS[1:]) if rng else "abcxyz"[j % 6]
+    if kind == "pair":
+        return (rng.randrange(0, 4), rng.randrange(0, 4)) if rng else (j % 3, j)
+    return tuple(rng.randrange(0, 4) for _ in range(rng.randrange(0, 4))) if rng else tuple(range(j % 4))
+
+
+def agg_case(sizes, kind, agg, fb, rng=None, follow=None):
+    """[key, value] pairs whose groups (in order of first appearance) have the given sizes; groupBy($[0], $[1], aggregator)
+    in a context with / without the old-style aggregator fallback"""
+    slots = [g + 1 for g, n in enumerate(sizes) for _ in range(n)]
+    if rng is not None and rng.random() < 0.6:
+        # interleave the groups, keeping the order in which they first appear
+        rng.shuffle(slots)
+        first = []
+        for g in slots:
+            if g not in first:
+                first.append(g)
+        slots = [first.index(g) + 1 for g in slots]
+    pairs = tuple((g, agg_value(rng, kind, j)) for j, g in enumerate(slots))
+    stages = [("groupByG", agg, fb)] + ([follow] if follow else [])
+    return (("iter" if rng is not None and rng.random() < 0.3 else "tuple", pairs), stages)
+
+
+def aggregator_grid(run):
+    """groupBy's aggregator protocol: aggregators in the new style, in the old style and ones that fail on some LATER group
+    (IndexError, NoMatchingMethod), group sizes 1, 2, 3 in every order, fallback on and off; result or error class"""
+    out = []
+    for j, sizes in enumerate(AGG_SIZES):
+        for a, agg in enumerate(AGG_KINDS):
+            for fb in (True, False):
+                out.append(agg_case(sizes, AGG_VALUES[(j + a) % 4], agg, fb))
+    for _ in range(run.n(400, 5000)):
+        sizes = tuple(run.rng.choice([1, 2, 2, 3]) for _ in range(run.rng.randrange(1, 5)))
+        follow = run.rng.choice([None, None, None, ("take", 1), ("take", 2), ("len",), ("first", sc.NOSEED)])
+        out.append(agg_case(sizes, run.rng.choice(AGG_VALUES), run.rng.choice(AGG_KINDS), run.rng.random() < 0.6, run.rng, follow))
+    return out
+
+
 def hashed_grid():
     """EQUAL dicts with different insertion orders through every use of a hash: distinct (with and without selector),
     sets and set algebra, membership, groupBy / toDict keys, dict keys"""
@@ -186,6 +234,8 @@ def correspondence(run):
     for src, stages in hashed_grid():
         for literal in (False, True):
             todo.append((src, stages, literal, None, sc.CONVS[len(todo) % 3]))
+    for src, stages in aggregator_grid(run):
+        todo.append((src, stages, len(todo) % 5 == 0 and src[0] == "tuple", None, sc.CONVS[len(todo) % 3]))
     n = run.n(2500, 40000)
     for _ in range(n):
         src, stages = sc.gen_pipeline(run.rng, 4)
@@ -322,7 +372,7 @@ def kinds_block(run, todo):
         text0, _ = sc.source_setup(src, literal)
         text = sc.conv_text(sc.pipeline_text(text0, stages, aliases=aliases), conv)
         try:
-            v = evaluate_raw(text, sc.source_setup(src, literal)[1], conv)
+            v = evaluate_raw(text, sc.source_setup(src, literal)[1], sc.fb_conv(stages, conv))
         except NestedLazy:
             run.count("kinds:skipped (a lazy object inside the result)")
             continue
